@@ -267,6 +267,11 @@ impl Drop for CStmt {
 }
 
 impl CDb {
+    pub fn checkpoint(&self) -> Result<(), CErr> {
+        let rc = c::ndb_checkpoint(self.ptr);
+        if rc != c::NDB_OK { Err(last_error(rc)) } else { Ok(()) }
+    }
+
     /// `ndb_close` while a transaction is open: must be refused and leave the handle valid.
     pub fn try_close_while_busy(&self) -> bool {
         let rc = c::ndb_close(self.ptr);
